@@ -561,6 +561,11 @@ func c09(c *Ctx) {
 						name, recv = f2.Name(), cc.Args[0]
 					}
 					if name == "SetDeadline" && recv != nil && lv[recv] {
+						// `if l, ok := listener.(interface{ SetDeadline(..) }); ok` sets it only when the listener at hand offers
+						// the method: one that was wrapped (tls.NewListener) does not, and then nothing bounds the accept
+						if ta := commaOkAssertOf(recv); ta != nil && !rawListener(ta.X, seeds, 0) {
+							continue
+						}
 						hasDeadline = true
 					}
 				}
@@ -711,4 +716,42 @@ func exitChannelsOf(fn *ssa.Function, r *ssa.Return) []ssa.Value {
 	}
 	// go/ssa lowers `for x := range ch` to: t = <-ch (commaOk) in the loop header
 	return out
+}
+
+// commaOkAssertOf: v is (an extract of) a comma-ok type assertion.
+func commaOkAssertOf(v ssa.Value) *ssa.TypeAssert {
+	if ex, ok := v.(*ssa.Extract); ok {
+		if ta, ok := ex.Tuple.(*ssa.TypeAssert); ok && ta.CommaOk {
+			return ta
+		}
+	}
+	return nil
+}
+
+// rawListener: v is one of the seeds (what net.Listen returned) on every path, seen through interface conversions only.
+func rawListener(v ssa.Value, seeds []ssa.Value, d int) bool {
+	if d > 6 {
+		return false
+	}
+	for _, s := range seeds {
+		if s == v {
+			return true
+		}
+	}
+	switch x := v.(type) {
+	case *ssa.MakeInterface:
+		return rawListener(x.X, seeds, d+1)
+	case *ssa.ChangeInterface:
+		return rawListener(x.X, seeds, d+1)
+	case *ssa.ChangeType:
+		return rawListener(x.X, seeds, d+1)
+	case *ssa.Phi:
+		for _, e := range x.Edges {
+			if !rawListener(e, seeds, d+1) {
+				return false
+			}
+		}
+		return len(x.Edges) > 0
+	}
+	return false
 }
